@@ -18,6 +18,7 @@ import numpy as np
 
 from vlib.core import PropertyCheck, TranslatorError
 from vlib import paths
+from props import _fresh
 
 CTL = ("CNOT", "CSIGN")
 SWP = ("SWAP", "ISWAP", "SQRTISWAP", "SQRTSWAP", "BERKELEY", "SWAPalpha")
@@ -93,11 +94,13 @@ _CC = {"v": None}
 
 
 def variant_cc():
+    """model variant / oracle class in use.  A source that is not recognised is held to the strict reading (the
+    condition is kept everywhere), so that the sweeps look at conditioned gates as well."""
     if _CC["v"] is None:
         try:
             _CC["v"] = bool(source_variant())
         except TranslatorError:
-            _CC["v"] = False
+            _CC["v"] = True
     return _CC["v"]
 
 
@@ -521,55 +524,18 @@ def conditioned_circuits(N):
 
 def fresh_fails(w, timeout=300):
     """check_property(w) in a FRESH interpreter (same tree, nothing routed before) -> (fails | None, detail)"""
-    code = ("import sys, json; from props import c07; w = json.load(sys.stdin); "
-            "print('\\n@@' + json.dumps(list(c07.check_property(w))))")
-    try:
-        r = subprocess.run([sys.executable, "-W", "ignore", "-c", code], input=json.dumps(w), capture_output=True,
-                           text=True, env=dict(os.environ), timeout=timeout)
-        line = [ln for ln in r.stdout.splitlines() if ln.startswith("@@")][-1]
-        f, d = json.loads(line[2:])
-        return bool(f), d
-    except Exception as e:
-        return None, f"fresh interpreter: {type(e).__name__}"
+    return _fresh.fresh_fails("c07", w, timeout)
 
 
-def reproducible(w, ncalls, budget=14):
-    """A witness that failed in this process: make it fail in a fresh interpreter.  If it does not fail on its
-    own, the calls made before it matter: return the shortest suffix of the call log (ending with the witness)
-    that fails when replayed from scratch, with single calls dropped greedily."""
-    f, _ = fresh_fails(w)
-    if f or f is None:
-        return w
+def reproducible(w, ncalls, budget=26):
+    """A witness that failed in this process: make it fail when replayed from scratch (see props/_fresh.py)."""
     own = w["history"] if "history" in w else [w]
+    strip = lambda c: {k: v for k, v in c.items() if not k.startswith("_") and k != "reuse"}
     log = CALLS[:ncalls]
-    # the log ends with the calls of the witness itself
-    base = log[:len(log) - len(own)] if log[len(log) - len(own):] == [
-        {k: v for k, v in c.items() if not k.startswith("_")} for c in own] else log
-    k, found, used = 1, None, 1
-    while used < budget:
-        pre = base[-k:]
-        cand = {"history": pre + own}
-        f, _ = fresh_fails(cand)
-        used += 1
-        if f:
-            found = pre
-            break
-        if k >= len(base):
-            break
-        k = min(2 * k, len(base)) if k < 4096 else len(base)
-    if found is None:
-        return w
-    # drop calls that are not needed (front to back), within the budget
-    i = 0
-    while i < len(found) and used < budget + 10 and len(found) > 1:
-        trial = found[:i] + found[i + 1:]
-        f, _ = fresh_fails({"history": trial + own})
-        used += 1
-        if f:
-            found = trial
-        else:
-            i += 1
-    return {"history": found + own}
+    if [strip(c) for c in log[len(log) - len(own):]] == [strip(c) for c in own]:
+        log = log[:len(log) - len(own)]
+    sizes = {c["N"] for c in own}
+    return _fresh.reproducible("c07", w, log, lambda c: c["N"] in sizes, budget)
 
 
 class C07(PropertyCheck):
@@ -629,7 +595,11 @@ class C07(PropertyCheck):
     # ---------------------------------------------------------------------------------
     def regenerate(self, ctx):
         _CC["v"] = None
-        _CC["v"] = bool(source_variant())        # TranslatorError if the source is not recognised
+        try:
+            _CC["v"] = bool(source_variant())
+        except TranslatorError:
+            _CC["v"] = True                      # strict reading, see variant_cc
+            raise
         ctx.log("source shape: the routed gate %s its classical condition (fixes/C07-5 %s)"
                 % (("keeps", "applied") if _CC["v"] else ("drops", "not applied")))
         return []
@@ -910,7 +880,7 @@ class C07(PropertyCheck):
                 kind = re.sub(r"\d+", "#", re.sub(r"^call \d+ of \d+ [^:]*: ", "", d))[:70]
                 if kind not in seen:
                     seen.add(kind)
-                    yield reproducible(w, len(CALLS), budget=8), d
+                    yield reproducible(w, len(CALLS)), d
 
 
 CHECK = C07()
